@@ -36,6 +36,10 @@ def gen_ops():
     # literals are fresh every time: a map / list born from an empty literal and then written into, later empty literals observed
     add("run_emptymap_write", 'm = {}\nm[fs] = fi\nl = []\nadd_key(mm, m)\nprobe(m, l)', pt=STD_PT)
     add("run_emptymap_read", 'd = {}\nif d { probe(1) }\nfor k in {} { probe(k) }\nadd_key(dd, d)\nprobe(d, len(d), [], len([]), "sv" in {})', pt=STD_PT)
+    # a value-less expression stored into an existing tag / field (index entries are recycled when the point is), then a script whose
+    # outcome depends on the type of every key of its point
+    add("run_void_into_keys", 'add_key(tg, a.b)\nadd_key(fi, a.b)\nset_tag(fs, a.b)\nprobe(tg, fi, fs)', pt=STD_PT)
+    add("run_typed_fields", 'add_key(rx, fi + fi)\nadd_key(ry, ff + 1)\nadd_key(rz, fs + "s")\nif fb { add_key(rb, fb) }\nprobe(fi, ff, fs, fb, fn, tg)', pt=STD_PT)
     # the same grok text under different local definitions of the alias it names, and with no definition at all
     add("run_grok_digits", 'add_pattern("hw", "\\\\d+")\nok = grok(fs, "%{hw:w}")\nprobe(ok, w)', pt={"meas": "m", "tags": {}, "fields": {"fs": "abc 123"}})
     add("run_grok_letters", 'add_pattern("hw", "[a-c]+")\nok = grok(fs, "%{hw:w}")\nprobe(ok, w)', pt={"meas": "m", "tags": {}, "fields": {"fs": "abc 123"}})
